@@ -923,6 +923,19 @@ func (e *Env) execInstr(fr *Frame, ins ssa.Instruction, st *State) {
 		}
 	case *ssa.Go:
 		e.trust("go statement in " + fr.fn.Name() + ": effects of the spawned goroutine are not merged into the spawner")
+		{
+			var gargs []Value
+			for _, a := range x.Call.Args {
+				gargs = append(gargs, e.get(fr, a, st))
+			}
+			name := ""
+			if f, ok := x.Call.Value.(*ssa.Function); ok {
+				name = f.Name()
+			} else if x.Call.IsInvoke() {
+				name = x.Call.Method.Name()
+			}
+			e.ghostAt(fr, "go", name, gargs, st)
+		}
 	case *ssa.Send:
 		e.trust("channel send: no effect on modelled state")
 		e.ghostAt(fr, "send", "", []Value{e.get(fr, x.Chan, st), e.get(fr, x.X, st)}, st)
